@@ -40,7 +40,7 @@ PInit(sc) ==
     live |-> sc.snd,                 \* sounds playing
     alive |-> sc.trk,                \* sub-tracks that exist
     sends |-> (IF sc.send THEN {"S"} ELSE {}) \cup (IF sc.send2 THEN {"S2"} ELSE {}),
-    paused |-> {}, pend |-> <<>>, dropped |-> {},
+    paused |-> {}, fading |-> {}, pend |-> <<>>, dropped |-> {},
     cnt |-> TLCEval([s \in Snds |-> 0]) ]
 
 Parent(sc, t) == IF t = "B" /\ sc.shape = "chain" THEN "A" ELSE "main"
@@ -64,6 +64,8 @@ After(m) ==
                !.alive = alive2,
                !.sends = m.sends \ drp, !.dropped = m.dropped \cup drp,
                !.paused = {t \in alive2 : (t \in m.paused /\ lastOp(t) # "resume") \/ lastOp(t) = "pause"},
+               \* tracks whose (zero-length) pause takes effect in this callback
+               !.fading = {t \in alive2 : lastOp(t) = "pause"},
                !.pend = <<>>]
 
 \* a sound is asked for frames iff it is live and every track on its path exists and is running
@@ -97,15 +99,31 @@ Expected(m1, f) ==
 
 Sum(seq) == LET F[i \in 0..Len(seq)] == IF i = 0 THEN 0 ELSE F[i - 1] + seq[i] IN F[Len(seq)]
 
+\* Like every parameter change of the library, a pause may take one internal chunk to take effect: in the first chunk
+\* of the callback the track may still be rendered, under a fade that runs from its old level to silence; its sounds then
+\* advance by that one chunk and freeze at its end.  (The state the handle reports is C12's subject.)
+Run(m1) == [m1 EXCEPT !.paused = m1.paused \ m1.fading]
+Faded(m1, s) == ~Asked(m1, s) /\ Asked(Run(m1), s)
+Chunk1(e) == IF e.b < e.n THEN e.b ELSE e.n
+FadedAsked(m1, e, s) == Faded(m1, s) /\ e.asks[s] # <<>>
+Between(x, a, b) == (a - 1 <= x /\ x <= b + 1) \/ (b - 1 <= x /\ x <= a + 1)
+OutOK(m1, e, f) ==
+  \/ e.out[f] = Expected(m1, f - 1)
+  \/ /\ f <= Chunk1(e)
+     /\ \E s \in Snds : FadedAsked(m1, e, s)
+     /\ Between(e.out[f], Expected(m1, f - 1), Expected(Run(m1), f - 1))
+
 Check(m, e) ==
   CASE e.a = "cb" ->
          LET m1 == After(m) IN
          IF e.panicked THEN "no_panic"
+         ELSE IF \E s \in Snds : FadedAsked(m1, e, s) /\ e.n0[s] # m1.cnt[s] THEN "every_frame_exactly_once_in_order"
+         ELSE IF \E s \in Snds : FadedAsked(m1, e, s) /\ e.asks[s] # <<Chunk1(e)>> THEN "silent_branch_contributes_exact_silence"
          ELSE IF \E s \in Snds : Asked(m1, s) /\ e.n0[s] # m1.cnt[s] THEN "every_frame_exactly_once_in_order"
          ELSE IF \E s \in Snds : Asked(m1, s) /\ Sum(e.asks[s]) # e.n THEN "every_live_sound_asked_for_every_frame"
          ELSE IF \E s \in Snds : \E i \in 1..Len(e.asks[s]) : e.asks[s][i] > e.b \/ e.asks[s][i] <= 0 THEN "slices_no_longer_than_internal_buffer"
          ELSE IF \E s \in Snds : ~Asked(m1, s) /\ e.asks[s] # <<>> /\ s \notin m1.live THEN "removed_sound_not_asked"
-         ELSE IF \E f \in 1..e.n : e.out[f] # Expected(m1, f - 1) THEN
+         ELSE IF \E f \in 1..e.n : ~OutOK(m1, e, f) THEN
               (IF \A f \in 1..e.n : Expected(m1, f - 1) = 0 THEN "silent_branch_contributes_exact_silence" ELSE "output_is_the_documented_sum")
          ELSE ""
     \* (a send track and a track routed to it, built while a callback was picking up its new resources: in every frame the
@@ -119,6 +137,9 @@ Check(m, e) ==
 Upd(m, e) ==
   CASE e.a = "op" -> [m EXCEPT !.pend = Append(@, e)]
     [] e.a = "cb" -> LET m1 == After(m) IN
-                     [m1 EXCEPT !.cnt = TLCEval([s \in Snds |-> IF Asked(m1, s) THEN m1.cnt[s] + e.n ELSE m1.cnt[s]])]
+                     [m1 EXCEPT !.cnt = TLCEval([s \in Snds |-> IF Asked(m1, s) THEN m1.cnt[s] + e.n
+                                                               ELSE IF FadedAsked(m1, e, s) THEN m1.cnt[s] + Sum(e.asks[s])
+                                                               ELSE m1.cnt[s]]),
+                                !.fading = {}]
     [] OTHER -> m
 =============================================================================
